@@ -173,7 +173,7 @@ func max64(a, b int64) int64 {
 func c04Run(t *testing.T, s *sim.Scn) *sim.Outcome {
 	o := sim.NewOutcome()
 	if cs := s.Cfg["cachestate"]; cs > 0 {
-		c04CacheRun(t, int(cs), o)
+		c04CacheRun(t, int(cs), int(s.Cfg["firstsave"]%2), o)
 		return o
 	}
 	depth := int(s.Cfg["depth"])
